@@ -166,6 +166,9 @@ pub enum PublicInputError {
     #[error("invalid number of segments")]
     InvalidSegments,
 
+    #[error("program or output cells are not at their addresses in the main page")]
+    MainPageInvalid,
+
     #[error("dynamic params missing")]
     DynamicParamsMissing,
 
@@ -263,6 +266,9 @@ pub enum PublicInputError {
 
     #[error("invalid number of segments")]
     InvalidSegments,
+
+    #[error("program or output cells are not at their addresses in the main page")]
+    MainPageInvalid,
 
     #[error("dynamic params missing")]
     DynamicParamsMissing,
